@@ -15,8 +15,8 @@ RULE = ("generate: full product policies x vendor/class names x addresses x size
         "reference with overlap and bounds detection, plus all 2^8 subsets of aligned placements; states = distinct "
         "placement multisets reached; non-trivial = output compared or refusal compared with the reference")
 ASSUMPTIONS = ["svmc/refhex.py and svmc/refuuid.py are correct (self-tested)", "hashlib SHA-1/SHA-256"]
-BOUNDS = {"quick": "generate full product; merge histories depth<=2, 2^8 aligned subsets x 3 area addresses",
-          "thorough": "generate full product; merge histories depth<=3, 2^8 subsets each + every single faulty placement"}
+BOUNDS = {"quick": "generate full product; generate histories depth<=2; merge histories depth<=2, 2^8 aligned subsets x 3 area addresses",
+          "thorough": "generate full product; generate histories depth<=3; merge histories depth<=3, 2^8 subsets each + every single faulty placement"}
 
 NAMES = ["nordicsemi.com", "", "a", "nRF54H20_sample_root", "zażółć.example", "xY" * 150, "MixedCase.Example"]
 ADDRS = [0, 0x10, 0xFFD0, 0x0E1FE000, 0x00FFFFF0, 2**32 - 48]
@@ -85,6 +85,51 @@ def run_gen(case, agg):
     else:
         agg.ok(key, "ok", sample={"vendor": v[:20], "class": c[:20], "addr": hex(case["addr"]), "size": case["size"],
                                   "policy": [case["dp"], case["iu"], case["sv"]]})
+
+
+# -- generate histories: the same output path written again and again -----------------------------------
+GEN_OPS = [(a, s, v, c, pol) for a in (0x1000, 0x2000, 0) for s in (48, 64)
+           for v, c in (("nordicsemi.com", "nRF54H20_sample_root"), ("acme.example", "cls"))
+           for pol in ((False, False, None), (True, True, "update-and-boot"))]
+
+
+def genhist_init():
+    return [((), ("start",))]
+
+
+def genhist_step(hist, agg, expand):
+    """replays the whole history of generate calls on ONE output path (the last call is the new step); the file must
+    be the reference record of the last call, whatever was written there before"""
+    m = _mpi()
+    hist = tuplify(hist)
+    if hist:
+        with fresh_dir("c12gh") as d:
+            out = os.path.join(d, "mpi.hex")
+            try:
+                for n, i in enumerate(hist):
+                    a, s, v, c, (dp, iu, sv) = GEN_OPS[i]
+                    if n % 2:
+                        m.main(mpi="generate", output_file=out, vendor_name=v, class_name=c, address=a, size=s,
+                               downgrade_prevention_enabled=dp, independent_updates=iu, signature_verification=sv)
+                    else:
+                        m.MpiGenerator.generate(out, v, c, a, s, dp, iu, sv)
+                mem = refhex.read_hex_file(out)
+            except refhex.HexError as e:
+                agg.viol("C12:generate-history/malformed-hex", f"history {[GEN_OPS[i][:4] for i in hist]}: {e}")
+                return []
+            except Exception as e:
+                agg.viol(f"C12:generate-history/crash/{type(e).__name__}", f"history {[GEN_OPS[i][:4] for i in hist]}: {e}")
+                return []
+        a, s, v, c, (dp, iu, sv) = GEN_OPS[hist[-1]]
+        rec = ref_record(v, c, dp, iu, sv).ljust(s, b"\xff")
+        if mem != {a + k: b for k, b in enumerate(rec)}:
+            agg.viol("C12:generate-history/stale-output", f"history {[(hex(GEN_OPS[i][0]),) + GEN_OPS[i][1:4] for i in hist]} on one output path: file holds "
+                     f"{[(hex(x), len(b)) for x, b in refhex.regions(mem)][:3]}, the last call asked for {hex(a)}+{s}")
+            return []
+        agg.ok(h8("gh", hist), f"ok:depth{len(hist)}", sample={"history": [list(GEN_OPS[i][:4]) for i in hist]} if hist == (3, 12) else None)
+    if not expand:
+        return []
+    return [(f"gen:{i}", hist + (i,), h8("gh", hist + (i,))) for i in range(len(GEN_OPS))]
 
 
 # -- merge -------------------------------------------------------------------------------------------
@@ -210,7 +255,7 @@ def cli_cases(tier):
     out = []
     for i, (dp, iu, sv) in enumerate(itertools.product((False, True), (False, True), SIGV)):
         out.append({"kind": "generate", "dp": dp, "iu": iu, "sv": sv, "addr": (4096, "0x1000", "0X1000", "0o10000")[i % 4], "size": ("48", "0x40")[i % 2],
-                    "v": ("nordicsemi.com", "Acme Corp", "")[i % 3], "c": ("nRF54H20_sample_root", "class with spaces", "")[(i // 3) % 3]})
+                    "v": ("nordicsemi.com", "Acme Corp", "", " padded.example ")[i % 4], "c": ("nRF54H20_sample_root", "class with spaces", "", "trailing\t")[(i // 3) % 4]})
     for files in (0, 1, 3):
         for addr in ("8192", "0x2000"):
             out.append({"kind": "merge", "files": files, "addr": addr})
@@ -263,6 +308,8 @@ def plan(tier):
         CaseStage("generate", lambda: gen_cases(tier), run_gen, disjoint=True, rule="policies x names x addresses x sizes"),
         BfsStage("merge-histories", merge_init, merge_step, max_depth=2 if tier == "quick" else 3,
                  rule="placement histories over 23 placements x 3 area addresses"),
+        BfsStage("generate-histories", genhist_init, genhist_step, max_depth=2 if tier == "quick" else 3,
+                 rule="histories of generate calls (24 parameter tuples: 3 addresses x 2 sizes x 2 name pairs x 2 policies) on one output path"),
         CaseStage("cli", lambda: cli_cases(tier), run_cli, rule="real CLI: 12 flag combinations x address/size syntax x names; merge with 0/1/3 --file"),
         CaseStage("merge-subsets", lambda: subset_cases(tier), run_subset, disjoint=True,
                   rule="all 2^8 subsets of aligned placements (+ each single faulty placement in thorough)"),
